@@ -63,6 +63,7 @@ func main() {
 	feasMs := flag.Int("feasibility-timeout-ms", 8000, "timeout of the branch-pruning queries (unknown = keep the branch)")
 	tier := flag.String("tier", "quick", "quick|thorough (value of the verifTier intrinsic)")
 	second := flag.String("second-solver", "", "re-check every obligation with this solver (z3-new|cvc5) and diff")
+	flag.BoolVar(&AcceptAbstractSat, "accept-abstract-sat", false, "accept sat answers of abstracted queries as candidate counterexamples (to be confirmed by native replay)")
 	fixCase := flag.String("fix-case", "", "name=val,... pins verifCase values (debugging)")
 	cpuprof := flag.String("cpuprofile", "", "write cpu profile")
 	flag.Parse()
@@ -372,11 +373,24 @@ func discharge(pool *SolverPool, hr *HarnessResult, workers, timeoutMs int, dump
 	var wg sync.WaitGroup
 	var mu sync.Mutex
 	cache := map[string]*QueryResult{}
+	failCount := map[string]int{}
 	for w := 0; w < workers; w++ {
 		wg.Add(1)
 		go func() {
 			defer wg.Done()
 			for o := range ch {
+				base := o.ID
+				if i := strings.IndexAny(base, "~["); i >= 0 {
+					base = base[:i]
+				}
+				mu.Lock()
+				tooMany := failCount[base] >= 8
+				mu.Unlock()
+				if tooMany && o.Kind != "reach" {
+					// enough counterexamples for this assertion: the rest is not solved (and not counted as held)
+					o.Verdict, o.Solver, o.OK, o.Err = "unknown", "skipped", false, "skipped: 8 counterexamples for this assertion already"
+					continue
+				}
 				if o.Kind != "reach" && o.goal.IsTrue() {
 					o.Verdict, o.Solver, o.OK = "unsat", "simplifier", true
 					continue
@@ -421,8 +435,14 @@ func discharge(pool *SolverPool, hr *HarnessResult, workers, timeoutMs int, dump
 				}
 				o.Verdict = r.Verdict.String()
 				o.Solver = r.Solver
+				o.Abstract = r.Abstract
 				o.Ms = r.Ms
 				o.Err = r.Err
+				if o.Kind != "reach" && r.Verdict == Sat {
+					mu.Lock()
+					failCount[base]++
+					mu.Unlock()
+				}
 				if o.Kind == "reach" {
 					o.OK = r.Verdict == Sat
 				} else {
